@@ -282,9 +282,9 @@ fn explore(ctx: &Ctx, sp: &Space, rep: &mut Report, sl: &[u64]) -> serde_json::V
                 }
                 if o.done {
                     acc.inc("completed_serializations");
-                    let sk = sample_key(seed, fnv(ev_str(&h2).as_bytes()));
-                    // salt independence: every completed history under 2 salts, every 32nd under all
-                    let ns = if sk % 32 == 0 { sl.len() } else { 2 };
+                    // salt independence: every completed history under 2 salts, every 32nd (by a fixed hash of the
+                    // history, independent of VERIF_SEED) under all
+                    let ns = if fnv(ev_str(&h2).as_bytes()) % 32 == 0 { sl.len() } else { 2 };
                     for s in &sl[..ns] {
                         let alt = run_history(&h2, Some(*s));
                         acc.inc("salted_runs");
